@@ -49,3 +49,4 @@ revert dea9526 C04
 revert 2506317 C07
 revert 057bbdd C05
 revert 95ddb54 C02
+revert 3813bce C05
